@@ -17,6 +17,9 @@ func init() {
 		ruleDef{"C06.R5", c06r5},
 		ruleDef{"C06.R6", c06r6},
 		ruleDef{"C06.R7", c06r7},
+		// what is recorded for a connection depends on that connection's frames and nothing else (a process-wide budget or
+		// cache in front of the capture makes one connection's fingerprint depend on another's traffic)
+		ruleDef{"C03.R1", c03r1},
 		// the value forwarded is computed from this request's record on each request (a cache keyed by anything but the connection would serve another connection's value)
 		ruleDef{"C06.R8", func(r *R) { injectedValueProvenance(r, "C06.R8") }},
 	)
